@@ -404,10 +404,19 @@ func RunC09(r *sim.Run) {
 	}
 
 	nSteps := t.Range(20, 120)
-	lowered, tbChanges := 0, 0
+	lowered, tbChanges, gateFlaps := 0, 0, 0
 	for step := 0; step < nSteps && !r.Violated(); step++ {
 		r.Step = step
-		switch t.Pick([]int{10, 8, 2, 1, 1, 2, 2}) {
+		switch t.Pick([]int{10, 8, 2, 1, 1, 2, 2, 1}) {
+		case 7: // the cluster's GlobalRateLimiter feature gate is switched off and on again
+			gap := []time.Duration{0, 0, 0, 100 * time.Millisecond}[t.Draw(4)]
+			lim.ResetLimiter(flowcontrol.LocalFlowControls)
+			if gap > 0 {
+				time.Sleep(gap)
+			}
+			lim.ResetLimiter(flowcontrol.RemoteFlowControls)
+			gateFlaps++
+			r.Logf("limiter type local, %v later remote again", gap)
 		case 0: // a burst of requests
 			s := schemas[t.Draw(len(schemas))]
 			n := t.Range(1, int(s.global)+4)
@@ -600,6 +609,30 @@ func RunC09(r *sim.Run) {
 			return
 		}
 	}
+	// count strategy, token bucket: the honest server grants every token it is asked for,
+	// so a steady stream of requests is admitted at the global rate again, not at the
+	// local fall-back rate the instance used while the server was failing. Judged only
+	// where the two rates are far apart (global >= 2 * local + 4).
+	for _, s := range schemas {
+		if !s.tb || s.strategy != proxyv1alpha1.GlobalCountLimit || s.global < 2*s.local+4 {
+			continue
+		}
+		admitted := 0
+		for i := 0; i < 500; i++ { // 5 s, one request every 10 ms
+			if lim.GetOrDefault(s.name).TryAcquire() {
+				admitted++
+			}
+			time.Sleep(10 * time.Millisecond)
+		}
+		sc.Settle()
+		fallback := int(s.local)*5 + int(s.lburst)
+		r.Checked("recovery_rate_takes_effect")
+		r.Logf("recovery %s (count, token bucket): %d of 500 requests in 5 s admitted (local qps %d burst %d, global qps %d burst %d)", s.name, admitted, s.local, s.lburst, s.global, s.gburst)
+		if admitted <= fallback+2 {
+			r.Violate("quota_not_restored", "count-token-bucket", "schema %s (count strategy, token bucket, local qps %d burst %d, global qps %d burst %d): 5 s after the server had recovered and was granting every token asked for, a steady 100 requests/s were admitted %d times in 5 s - what the local fall-back allows (%d), not the global rate", s.name, s.local, s.lburst, s.global, s.gburst, admitted, fallback)
+			return
+		}
+	}
 	r.SimSecs = now().Seconds()
 	st.mu.Lock()
 	r.ProbeN("allocate_rpcs", st.allocSeen)
@@ -608,6 +641,7 @@ func RunC09(r *sim.Run) {
 	r.ProbeN("requests", reqN)
 	r.ProbeN("global_limit_lowered", lowered)
 	r.ProbeN("token_bucket_limits_changed", tbChanges)
+	r.ProbeN("limiter_type_switched_off_and_on", gateFlaps)
 	var sample []string
 	for _, s := range schemas {
 		sample = append(sample, fmt.Sprintf("%s tb=%v %s local=%d global=%d maxInflightSeen(remote)=%d (local)=%d", s.name, s.tb, s.strategy, s.local, s.global, maxSeen[s.name+"|remote"], maxSeen[s.name+"|local"]))
